@@ -16,7 +16,7 @@ ASSUMPTIONS = ['rs_graph\'s graph builder is modelled as an edge recorder; netwo
                'cost rates concrete (2,3,5,7,11); the cost_overflow_checker\'s products of two symbolic quantities are abstracted to interval-bounded fresh variables (they only feed overflow warnings)',
                'maintenance slots are handed to solve_for_vehicle_type as a symbolic allotment (distribute_maintenance_slots uses floating point and is outside this technique)']
 BOUNDS = {'quick': 'construction: 1 type, 1 service trip + maintenance slot (allotted or not) and 2 service trips (slot not allotted), 1 real depot + overflow, all attributes symbolic incl. both limits; decoding: 1 service trip + slot (allotted or not), every feasible circulation with flows 0..2',
-          'thorough': 'construction: up to 3 service trips; decoding: 2 trips + slot'}
+          'thorough': 'construction additionally with 2 service trips + allotted slot; decoding as quick. Measured and therefore NOT part of the plan: construction with 3 trips and decoding with 2 trips did not finish within the 30-minute job cap'}
 OUTSIDE = 'optimality of network_simplex; distribute_maintenance_slots (floating point); comparison with an independently computed optimum on whole instances; depot totals coupling several types'
 REQUIRED_COVERS = {'quick': ['arc:service->service', 'limit:none->100', 'maintenance allotted', 'decoded a tour']}
 REQUIRED_COVERS['thorough'] = REQUIRED_COVERS['quick']
@@ -65,10 +65,11 @@ def mk_spec(tier, ntrips):
 
 def jobs(tier, seed):
     js = []
-    cons = ((1, 0), (1, 1), (2, 0)) if tier == 'quick' else ((1, 0), (1, 1), (2, 0), (2, 1), (3, 0))
+    # measured: construction with 3 trips and decoding with 2 trips do not finish within the 30-minute job cap; they are not part of the plan
+    cons = ((1, 0), (1, 1), (2, 0)) if tier == 'quick' else ((1, 0), (1, 1), (2, 0), (2, 1))
     for nt, allot in cons:
         js.append(dict(name='construction %d trips, slot allotted=%d' % (nt, allot), func='job_construction', kwargs=dict(tier=tier, ntrips=nt, allot=allot)))
-    for nt, allot in (((1, 0), (1, 1)) if tier == 'quick' else ((1, 0), (1, 1), (2, 0), (2, 1))):
+    for nt, allot in ((1, 0), (1, 1)):
         js.append(dict(name='decoding %d trips, slot allotted=%d' % (nt, allot), func='job_decode', kwargs=dict(tier=tier, ntrips=nt, allot=allot)))
     return js
 
